@@ -360,7 +360,7 @@ class World(object):
         mod('sys', {'platform': 'linux', 'version_info': STuple((3, 12, 1)), 'maxsize': 2 ** 63 - 1,
                     'stdout': Missing('stdout'), 'stderr': Missing('stderr')})
         mod('math', {'ceil': NativeFunc('ceil', _ceil), 'log': Missing('math.log'),
-                     'floor': Missing('math.floor')})
+                     'floor': NativeFunc('floor', _floor)})
         mods['re'] = ModuleVal('re', native=ReModule())
         mod('pyvc_rt', {
             'nondet_int': NativeFunc('nondet_int', _nd_int),
@@ -616,6 +616,18 @@ def _reduce(ex, a, k):
     return acc
 
 
+def _floor(ex, a, k):
+    import math
+    v = a[0]
+    if isinstance(v, (int, float)):
+        return math.floor(v)
+    if isinstance(v, SInt) and v.t.sort() == z3.RealSort():
+        return mk_int(z3.ToInt(v.t))
+    if isinstance(v, SInt):
+        return v
+    raise Unsupported('floor')
+
+
 def _ceil(ex, a, k):
     import math
     if isinstance(a[0], (int, float)):
@@ -778,6 +790,11 @@ def b_int(ex, a, k):
             return int(bytes(v.conc))
         except ValueError as e:
             ex.throw('ValueError', str(e))
+    if isinstance(v, SObj):
+        f, _ = v.cls.lookup('__int__')
+        if isinstance(f, FuncVal):
+            return ex.call(BoundMethod(v, f), [], {})
+        ex.throw('TypeError', "int() argument must be a string, a bytes-like object or a real number")
     if v is None or isinstance(v, (SList, tuple, SDict)):
         ex.throw('TypeError', "int() argument must be a string, a bytes-like object or a real number")
     raise Unsupported('int(%r)' % (v,))
